@@ -286,7 +286,7 @@ func c03NewCluster(cfg c03Cfg, r *vw.Rng, tag string) *c03Cluster {
 		mem := NewMemTransport(TransportConfig{Addr: rc.ID, MsgChanCap: 1024}).(*memTransport)
 		mems = append(mems, mem)
 		dr := NewMsgDropper(mem, int64(r.U64()>>1), cfg.dropP).(*msgDropper)
-		du := NewMsgDuplicator(dr, 20, cfg.dupP, int64(r.U64()>>1)).(*msgDuplicator)
+		du := NewMsgDuplicator(NewVerifSnapOnce(dr), 20, cfg.dupP, int64(r.U64()>>1)).(*msgDuplicator)
 		re := NewMsgReorder(du, cfg.reorderP, cfg.reorderMax, int64(r.U64()>>1)).(*msgReorder)
 		node := NewRaft(rc, newStorage(), re)
 		c.nodes = append(c.nodes, node)
